@@ -694,3 +694,32 @@ Proof.
   intros q. cbv zeta. split; [reflexivity|]. split; [unfold aware; cbn; discriminate|].
   split; [vm_compute; discriminate|reflexivity].
 Qed.
+
+(* ------------------------------------------------------------------ SQLite column typing, entry routes *)
+Theorem sqlite_roundtrip : forall reads_as q f d, reads_as = "datetime"%string -> f = FormIsoText -> valid d -> aware d ->
+  off_exact q (off d) = true -> obind (text_encode f d) (sqlite_decode reads_as q) = Some d.
+Proof. intros reads_as q f d -> -> Hv Ha Hx. cbn. apply text_roundtrip; assumption. Qed.
+
+(* a column declared so that it reads as text gives no timestamp back *)
+Lemma sqlite_text_column_refuted : forall q d, obind (text_encode FormIsoText d) (sqlite_decode "string" q) = None.
+Proof. reflexivity. Qed.
+
+Lemma all_routes_complete : forall r, In r all_routes.
+Proof. destruct r; cbv; tauto. Qed.
+
+Theorem every_route_coerces : forall (f : entry_route -> list string),
+  forallb (fun r => route_coerces (f r)) all_routes = true ->
+  forall r q keep i,
+    enter_via (f r) q keep i = match dt_new q keep i with Some d => StoredValue d | None => Rejected end
+    /\ (forall d, enter_via (f r) q keep i = StoredValue d -> aware d).
+Proof.
+  intros f H r q keep i. rewrite forallb_forall in H. specialize (H r (all_routes_complete r)).
+  unfold enter_via. rewrite H. split; [reflexivity|].
+  intros d. destruct (dt_new q keep i) eqn:E; [|discriminate]. intros Hd. injection Hd as <-.
+  exact (dt_new_aware q keep i d0 E).
+Qed.
+
+(* a route that does not run the constructor keeps a naive object naive *)
+Lemma route_without_constructor_refuted : forall q keep x o0,
+  enter_via [] q keep (InObj x o0) = StoredRaw (InObj x o0).
+Proof. reflexivity. Qed.
